@@ -34,6 +34,10 @@ type mcase struct {
 	Adjs      []adj               `json:"adjs"`
 	Perm      map[string]string   `json:"perm"`
 	ViaParse  bool                `json:"via_parse,omitempty"`
+	// SharedPool: the dimensions' value lists are windows onto one backing array (pool[:2], pool[2:5],
+	// ... as a program that slices one list of targets builds them), the last one with spare capacity:
+	// an append through any of them writes into its neighbour
+	SharedPool bool `json:"shared_pool,omitempty"`
 }
 
 func truthy(s any) bool {
@@ -143,6 +147,22 @@ func buildStep(c mcase) *pipeline.CommandStep {
 	m := &pipeline.Matrix{Setup: pipeline.MatrixSetup{}}
 	for d, vs := range c.Setup {
 		m.Setup[d] = append([]string{}, vs...)
+	}
+	if c.SharedPool {
+		var ds []string
+		for d := range c.Setup {
+			ds = append(ds, d)
+		}
+		sort.Strings(ds)
+		pool := make([]string, 0, 16)
+		for _, d := range ds {
+			pool = append(pool, c.Setup[d]...)
+		}
+		off := 0
+		for _, d := range ds {
+			m.Setup[d] = pool[off : off+len(c.Setup[d])]
+			off += len(c.Setup[d])
+		}
 	}
 	for _, a := range c.Adjs {
 		w := pipeline.MatrixAdjustmentWith{}
@@ -268,6 +288,9 @@ func classes(c mcase) []string {
 	}
 	if c.ViaParse {
 		out = append(out, "via-parse")
+	}
+	if c.SharedPool {
+		out = append(out, "value-lists-share-one-backing-array")
 	}
 	for _, l := range c.Setup {
 		if len(l) > 16 {
@@ -457,6 +480,7 @@ func genCase(t *rapid.T) mcase {
 		c.Perm[rapid.SampledFrom(ds).Draw(t, "pd")] = "fresh"
 	}
 	c.ViaParse = rapid.IntRange(0, 3).Draw(t, "viaparse") == 0
+	c.SharedPool = !c.ViaParse && rapid.IntRange(0, 2).Draw(t, "sharedpool") == 0
 	return c
 }
 
